@@ -512,8 +512,10 @@ func (x *Exec) external(fn *ssa.Function, args []Val) (Val, bool) {
 		return o, true
 	case "(github.com/jmespath/go-jmespath.tokType).String", "(github.com/jmespath/go-jmespath.astNodeType).String":
 		return opaque(fn.Name()), true
-	case "(*bytes.Buffer).WriteString", "(*bytes.Buffer).String", "(*bytes.Buffer).Reset", "(*bytes.Buffer).WriteByte", "(*bytes.Buffer).Len":
-		return x.bytesBuffer(fn.Name(), args), true
+	case "(*bytes.Buffer).WriteString", "(*bytes.Buffer).String", "(*bytes.Buffer).Reset", "(*bytes.Buffer).WriteByte", "(*bytes.Buffer).Len", "(*bytes.Buffer).Write", "(*bytes.Buffer).WriteRune", "(*bytes.Buffer).Grow":
+		return x.byteBuf(fn.Name(), args, 0), true
+	case "(*strings.Builder).WriteString", "(*strings.Builder).String", "(*strings.Builder).Reset", "(*strings.Builder).WriteByte", "(*strings.Builder).Len", "(*strings.Builder).Write", "(*strings.Builder).WriteRune", "(*strings.Builder).Grow":
+		return x.byteBuf(fn.Name(), args, 1), true
 	case "encoding/json.Unmarshal":
 		return x.jsonUnmarshal(args), true
 	case "encoding/json.Marshal", "encoding/json.MarshalIndent":
@@ -675,23 +677,40 @@ func (x *Exec) strIndexOf(s, sub Str, last bool) Int {
 	return res.(Int)
 }
 
-func (x *Exec) bytesBuffer(method string, args []Val) Val {
+// byteBuf models bytes.Buffer (content in field 0) and strings.Builder (field 1).
+func (x *Exec) byteBuf(method string, args []Val, field int) Val {
 	p := args[0].(Ptr)
 	if p.Base == nil {
 		x.fail("nil-deref", "")
 	}
-	fp := Ptr{Base: p.Base, Path: append(append([]Step{}, p.Path...), Step{Field: 0})}
+	fp := Ptr{Base: p.Base, Path: append(append([]Step{}, p.Path...), Step{Field: field})}
 	cur := x.load(fp).(Slice)
 	switch method {
-	case "WriteString", "WriteByte":
+	case "Grow":
+		return nil
+	case "WriteString", "WriteByte", "Write", "WriteRune":
 		var add []Val
-		if method == "WriteString" {
+		switch method {
+		case "WriteString":
 			s := args[1].(Str)
-			x.needContent(s, "Buffer.WriteString")
+			x.needContent(s, "WriteString")
 			for _, b := range s.B {
 				add = append(add, b)
 			}
-		} else {
+		case "Write":
+			add = append(add, x.sliceElems(args[1].(Slice))...)
+		case "WriteRune":
+			r := x.subst(args[1].(Int))
+			var enc Str
+			if r.conc() {
+				enc = strOf(string(rune(r.sval())))
+			} else {
+				enc = x.encodeRune(ext(r, 32, true))
+			}
+			for _, b := range enc.B {
+				add = append(add, b)
+			}
+		default:
 			add = []Val{args[1]}
 		}
 		n := Array{}
@@ -1346,6 +1365,31 @@ func (x *Exec) syncModel(name string, args []Val) (Val, bool) {
 			x.call(f.F, nil, f.Env)
 		}
 		return nil, true
+	case "(*sync.Pool).Get", "(*sync.Pool).Put":
+		// a pool hands back what was put (most recent first) or calls New
+		k := key()
+		if x.pools == nil {
+			x.pools = map[string][]Val{}
+		}
+		if name == "(*sync.Pool).Put" {
+			x.pools[k] = append(x.pools[k], args[1])
+			return nil, true
+		}
+		if n := len(x.pools[k]); n > 0 {
+			v := x.pools[k][n-1]
+			x.pools[k] = x.pools[k][:n-1]
+			return v, true
+		}
+		pool := x.load(args[0].(Ptr)).(Struct)
+		st := x.P.prog.ImportedPackage("sync").Type("Pool").Type().Underlying().(*types.Struct)
+		for i := 0; i < st.NumFields(); i++ {
+			if st.Field(i).Name() == "New" {
+				if f, ok := pool.F[i].(Fn); ok && f.F != nil {
+					return x.call(f.F, nil, f.Env), true
+				}
+			}
+		}
+		return Iface{}, true
 	case "(*sync.Map).Load", "(*sync.Map).Store", "(*sync.Map).LoadOrStore", "(*sync.Map).Delete":
 		k := key()
 		if x.syncMaps == nil {
